@@ -45,6 +45,12 @@ Stats::~Stats() {
   auto client = StatsClient(stats_socket_path_);
   client.closeSocket();
   std::unique_lock<std::mutex> lock(thread_mutex_);
+  // A client may feed its request (or fetch its reply) a byte at a time, each
+  // one inside the socket timeout, for a minute or more. Do not wait for it:
+  // shutting the socket down makes the handler's read()/send() return at once.
+  for (int fd : client_fds_) {
+    ::shutdown(fd, SHUT_RDWR);
+  }
   if (!thread_exited_.wait_for(lock, std::chrono::seconds(5), [this] {
         return this->thread_count_ == 0;
       })) {
@@ -157,6 +163,7 @@ void Stats::runSocket() {
     ::setsockopt(sockfd, SOL_SOCKET, SO_SNDTIMEO, time_ptr, sizeof io_timeout);
     std::unique_lock<std::mutex> lock(thread_mutex_);
     ++thread_count_;
+    client_fds_.insert(sockfd);
     std::thread msg_thread_ =
         std::thread([this, sockfd] { this->processMsg(sockfd); });
     msg_thread_.detach();
@@ -168,6 +175,12 @@ void Stats::runSocket() {
 void Stats::processMsg(int sockfd) {
   std::array<char, 64> err_buf = {};
   OOMD_SCOPE_EXIT {
+    {
+      // ~Stats must not shut down a descriptor number that was closed (and
+      // maybe reused) already
+      std::unique_lock<std::mutex> lock(thread_mutex_);
+      client_fds_.erase(sockfd);
+    }
     if (::close(sockfd) < 0) {
       OLOG << "Stats server error: closing file descriptor: "
            << ::strerror_r(errno, err_buf.data(), err_buf.size());
